@@ -25,7 +25,7 @@ class Check:
 
     def reset(self):
         """Called at the start of every path."""
-        np.linalg._impl.clear()
+        stubs.install_linalg()
 
     def configs(self, tier):
         raise NotImplementedError
